@@ -431,6 +431,10 @@ func (u *Unit) resolveType(env *SpecEnv, txt string) (t types.Type) {
 	pkg := u.Pkg.Pkg
 	if env != nil && env.pkg != nil {
 		pkg = env.pkg
+	} else if env != nil && env.cf != nil {
+		if sp, ok := u.V.SSAPkgs[env.cf.PkgPath]; ok {
+			pkg = sp.Pkg
+		}
 	}
 	key := pkg.Path() + "|" + txt
 	u.V.mu.Lock()
@@ -446,23 +450,56 @@ func (u *Unit) resolveType(env *SpecEnv, txt string) (t types.Type) {
 			u.V.mu.Unlock()
 		}
 	}()
-	tv, err := types.Eval(u.V.Prog.Fset, pkg, token.NoPos, txt)
-	if err != nil || tv.Type == nil {
-		// allow orb.X from any package
-		if strings.HasPrefix(txt, "orb.") {
-			if p := u.V.typesPkg("github.com/paulmach/orb"); p != nil {
-				tv2, err2 := types.Eval(u.V.Prog.Fset, p, token.NoPos, strings.TrimPrefix(txt, "orb."))
-				if err2 == nil && tv2.Type != nil {
-					return tv2.Type
+	if strings.HasPrefix(txt, "*") {
+		return types.NewPointer(u.resolveType(env, txt[1:]))
+	}
+	if strings.HasPrefix(txt, "[]") {
+		return types.NewSlice(u.resolveType(env, txt[2:]))
+	}
+	if i := strings.Index(txt, "."); i > 0 && !strings.ContainsAny(txt, "[]*( ") {
+		// qualified name: find the package by name among the loaded packages
+		pn, name := txt[:i], txt[i+1:]
+		var cands []*types.Package
+		for _, sp := range u.V.Prog.AllPackages() {
+			if sp.Pkg.Name() == pn {
+				cands = append(cands, sp.Pkg)
+			}
+		}
+		for _, cp := range cands {
+			// prefer packages imported by pkg
+			for _, imp := range pkg.Imports() {
+				if imp == cp {
+					if o := cp.Scope().Lookup(name); o != nil {
+						if tn, ok := o.(*types.TypeName); ok {
+							return tn.Type()
+						}
+					}
 				}
 			}
 		}
+		for _, cp := range cands {
+			if o := cp.Scope().Lookup(name); o != nil {
+				if tn, ok := o.(*types.TypeName); ok && (u.V.inRepoPkg(cp.Path()) || !strings.Contains(cp.Path(), "/")) {
+					return tn.Type()
+				}
+			}
+		}
+	}
+	tv, err := types.Eval(u.V.Prog.Fset, pkg, token.NoPos, txt)
+	if err != nil || tv.Type == nil {
 		u.specErr("cannot resolve type %q: %v", txt, err)
 	}
 	return tv.Type
 }
 
 func (u *Unit) pkgObject(env *SpecEnv, name string) (Value, bool) {
+	if env != nil && env.cf != nil {
+		if sp, ok := u.V.SSAPkgs[env.cf.PkgPath]; ok {
+			if v, ok := u.objectIn(env, sp, name); ok {
+				return v, true
+			}
+		}
+	}
 	return u.objectIn(env, u.Pkg, name)
 }
 
@@ -614,6 +651,10 @@ func (u *Unit) evalSpecCall(env *SpecEnv, c *ECall) Value {
 			ts = append(ts, av.T)
 		}
 		return Value{T: Mk(dt, ts...), Ty: ty}
+	case "has":
+		m := arg(0)
+		k := arg(1)
+		return Value{T: u.specMapHas(env, m, k.T), Ty: boolType}
 	case "same":
 		a, b := arg(0), arg(1)
 		return Value{T: Eq(a.T, b.T), Ty: boolType}
@@ -700,8 +741,9 @@ func (u *Unit) fIsNaN(t *Term) *Term {
 		u.W.needAbstractOps()
 		return App("fisnan", "Bool", t)
 	}
-	return And(Eq(App("(_ extract 62 52)", "(_ BitVec 11)", t), Leaf("#b11111111111", "(_ BitVec 11)")),
-		Not(Eq(App("(_ extract 51 0)", "(_ BitVec 52)", t), Leaf("#x0000000000000", "(_ BitVec 52)"))))
+	p52 := Leaf("4503599627370496", "Int")
+	return And(App("=", "Bool", App("mod", "Int", App("div", "Int", t, p52), Leaf("2048", "Int")), Leaf("2047", "Int")),
+		Not(App("=", "Bool", App("mod", "Int", t, p52), Leaf("0", "Int"))))
 }
 
 // applySpecFunc: spec functions are SMT define-fun(-rec) with the heaps they read as extra parameters.
